@@ -142,6 +142,12 @@ fn check_instant(ctx: &mut Ctx, tz: Tz, secs: i64, digits: u32, tag: &str) {
     // B: Zinc text written by the harness, and round trip of the library's own value
     let ztext = if short == "UTC" { utc_text.clone() } else { format!("{text} {short}") };
     expect(ctx, "zinc-text", "zinc::from_str", catch(|| dt_of(from_str(&ztext).map_err(|e| e.to_string()))), &want, false, &ztext);
+    // ... and decoded from a reader that hands out 1-13 bytes at a time and is interrupted on every other call
+    let zr = catch(|| {
+        let mut r = crate::readers::HostileReader::new(ztext.as_bytes(), crate::readers::Chunking::Random(secs as u64), true, None);
+        dt_of(libhaystack::encoding::zinc::decode::parser::Parser::make(&mut r).and_then(|mut p| p.parse_value()).map_err(|e| e.to_string()))
+    });
+    expect(ctx, "zinc-text-from-reader", "zinc Parser::make(reader).parse_value", zr, &want, false, &ztext);
     let lib_val = Value::make_datetime(DateTime::from(tz.timestamp_opt(secs, nanos).unwrap()));
     let z = catch(|| to_zinc_string(&lib_val).map_err(|e| e.to_string()).and_then(|t| dt_of(from_str(&t).map_err(|e| format!("{e} (text {t})")))));
     expect(ctx, "zinc-roundtrip", "Zinc encode->decode", z, &want, false, &ztext);
